@@ -3,6 +3,7 @@ package engines
 import (
 	"encoding/json"
 	"fmt"
+	"os/user"
 	"sort"
 	"strconv"
 	"strings"
@@ -357,6 +358,60 @@ var qProbeNames = []string{"same_messages_coalesced_again", "resolution_after_ca
 
 var qFaultNames = []string{"cache_expiry_clock_jump", "repeated_call_on_same_input", "concurrent_tasks", "malformed_records"}
 
+// independent reference for ID resolution: the sandbox's user and group
+// databases asked directly (os/user), once per process.
+var refUserName, refGroupName map[string]string
+
+func initNameRefs() {
+	if refUserName != nil {
+		return
+	}
+	refUserName, refGroupName = map[string]string{}, map[string]string{}
+	for _, id := range qUIDs {
+		if u, err := user.LookupId(id); err == nil {
+			refUserName[id] = u.Username
+		} else {
+			refUserName[id] = ""
+		}
+		if g, err := user.LookupGroupId(id); err == nil {
+			refGroupName[id] = g.Name
+		} else {
+			refGroupName[id] = ""
+		}
+	}
+}
+
+// checkNames compares every name the library attached to an id with the
+// answer of the user / group database for that id.
+func checkNames(ev *aucoalesce.Event) string {
+	if ev == nil {
+		return ""
+	}
+	for k, name := range ev.User.Names {
+		id := ev.User.IDs[k]
+		var want string
+		var ok bool
+		switch {
+		case strings.HasSuffix(k, "uid"):
+			want, ok = refUserName[id]
+		case strings.HasSuffix(k, "gid"):
+			want, ok = refGroupName[id]
+		}
+		if ok && name != want {
+			return fmt.Sprintf("user.names[%s] = %q for id %s, the %s database says %q", k, name, id, map[bool]string{true: "user", false: "group"}[strings.HasSuffix(k, "uid")], want)
+		}
+	}
+	if ev.File != nil {
+		if want, ok := refUserName[ev.File.UID]; ok && ev.File.UID != "" && ev.File.Owner != want {
+			return fmt.Sprintf("file.owner = %q for uid %s, the user database says %q", ev.File.Owner, ev.File.UID, want)
+		}
+		if want, ok := refGroupName[ev.File.GID]; ok && ev.File.GID != "" && ev.File.Group != want {
+			return fmt.Sprintf("file.group = %q for gid %s, the group database says %q", ev.File.Group, ev.File.GID, want)
+		}
+	}
+	return ""
+}
+
 // canonical forms -----------------------------------------------------------
 
 func canonEvent(ev *aucoalesce.Event, err error) string {
@@ -439,6 +494,7 @@ func ExecQPlan(p *QPlan, trace bool) *core.Result {
 	start := time.Now()
 	// ---- setup, in the driver goroutine, before any task exists ----
 	resetCoalesceGlobals()
+	initNameRefs()
 	groups := make([]*qGroup, len(p.Groups))
 	for gi, recs := range p.Groups {
 		g := &qGroup{msgs: parseGroup(recs, p.Seq+uint32(gi))}
@@ -586,6 +642,9 @@ func ExecQPlan(p *QPlan, trace bool) *core.Result {
 					if pan != "" {
 						viol("panic", "ResolveIDs", "ID resolution panicked: "+pan)
 						continue
+					}
+					if bad := checkNames(e.ev); bad != "" {
+						viol("resolved-name-wrong", qopNames[op.K], fmt.Sprintf("%s on an event of group %d (task %d op %d): %s", qopNames[op.K], e.g, ti, oi, bad))
 					}
 					got := canonEvent(e.ev, e.err)
 					if got != groups[e.g].refRes {
